@@ -44,6 +44,28 @@ Definition vrules : list (string * string * string * vrule) :=
     ("j5.schema.v1.Field", "", "type", VOneofRequired);
     ("j5.schema.v1.IntegerField", "format", "format", VEnumNonZero);
     ("j5.schema.v1.KeyFormat_Custom", "pattern", "pattern", VReqString) ].
+(* the annotations [vrules] was written from, as the translator reads them from the two .proto files on every run
+   (WalkSchemaGen.validate_annotations; agreement lemma validate_sources_agree): `response` required = false is no
+   rule; `entity` (EntityObject) is [vunmodelled] *)
+Definition vrule_sources : list (string * string * string) :=
+  [ ("file.proto", "status", "(buf.validate.field).required = true");
+    ("file.proto", "http_method", "(buf.validate.field).enum = { not_in: 0 defined_only: true }");
+    ("file.proto", "request", "(buf.validate.field).required = true");
+    ("file.proto", "response", "(buf.validate.field).required = false");
+    ("file.proto", "def", "(buf.validate.field).required = true, (j5.ext.v1.field).message.flatten = true");
+    ("file.proto", "message", "(buf.validate.field).required = true");
+    ("file.proto", "message", "(buf.validate.field).required = true");
+    ("file.proto", "name", "(buf.validate.field).string.pattern = ""^[A-Z][A-Za-zA-Z0-9]+$""");
+    ("schema.proto", "entity", "(buf.validate.field).string.pattern = ""^[A-Z][a-zA-Z0-9_]*$""");
+    ("schema.proto", "format", "(buf.validate.field) = { enum: {not_in: 0} required: true }");
+    ("schema.proto", "pattern", "(buf.validate.field).required = true");
+    ("schema.proto", "oneof", "(buf.validate.oneof).required = true") ].
+(* every annotated field has a rule (by proto field name; the oneof rule is named after the oneof) or is one of the two exemptions *)
+Definition vrule_covered (row : string * string * string) : bool :=
+  let f := snd (fst row) in
+  existsb (fun r => String.eqb (snd (fst r)) f || (String.eqb f "oneof" && String.eqb (snd (fst r)) "type")) vrules
+  || String.eqb f "response" || String.eqb f "entity".
+
 (* schemas whose rules are not modelled (string patterns on implicit-presence fields) *)
 Definition vunmodelled : list string := ["j5.schema.v1.EntityObject"].
 
